@@ -256,7 +256,22 @@ func (k *Kernel) Drain(maxSim time.Duration) bool {
 			continue
 		}
 		if k.Live() == 0 {
-			return true
+			// Background goroutines (flush workers, GC) may be between two gates inside a short
+			// timed wait (bbolt batch delay, FSTree batch interval) while holding a read lock.
+			// Give them a quiet period on the simulated clock; if they reach a gate, keep draining.
+			quiet := true
+			for i := 0; i < 3 && quiet; i++ {
+				k.Sleep(7 * time.Millisecond)
+				total += 7 * time.Millisecond
+				synctest.Wait()
+				if len(k.Parked()) > 0 || k.Live() > 0 {
+					quiet = false
+				}
+			}
+			if quiet {
+				return true
+			}
+			continue
 		}
 		if total >= maxSim {
 			return false
